@@ -360,13 +360,10 @@ func (ssc *StatefulSetController) adoptOrphanRevisions(set *apps.StatefulSet) er
 		}
 	}
 	if len(orphanRevisions) > 0 {
-		for i := range orphanRevisions {
-			if shouldSyncLabels(orphanRevisions[i]) {
-				orphanRevisions[i], err = syncLabels(ssc.kubeClient, set, orphanRevisions[i])
-				if err != nil {
-					return err
-				}
-			}
+		// as for pods: a set that is being deleted adopts nothing, and that is rechecked with an
+		// uncached read before anything is written
+		if set.DeletionTimestamp != nil {
+			return nil
 		}
 		fresh, err := ssc.pcClient.AppsV1().StatefulSets(set.Namespace).Get(context.TODO(), set.Name, metav1.GetOptions{})
 		if err != nil {
@@ -374,6 +371,17 @@ func (ssc *StatefulSetController) adoptOrphanRevisions(set *apps.StatefulSet) er
 		}
 		if fresh.UID != set.UID {
 			return fmt.Errorf("original StatefulSet %v/%v is gone: got uid %v, wanted %v", set.Namespace, set.Name, fresh.UID, set.UID)
+		}
+		if fresh.DeletionTimestamp != nil {
+			return fmt.Errorf("%v/%v has just been deleted at %v", set.Namespace, set.Name, fresh.DeletionTimestamp)
+		}
+		for i := range orphanRevisions {
+			if shouldSyncLabels(orphanRevisions[i]) {
+				orphanRevisions[i], err = syncLabels(ssc.kubeClient, set, orphanRevisions[i])
+				if err != nil {
+					return err
+				}
+			}
 		}
 		return ssc.control.AdoptOrphanRevisions(set, orphanRevisions)
 	}
